@@ -4,7 +4,7 @@
 (* judges the laws.  A fixed delta rotates over moderate, tiny and huge values (the       *)
 (* linearised positions must be accurate over the whole range).                           *)
 EXTENDS EwLsqOps, TLC, Json
-CONSTANTS NSet, Reps
+CONSTANTS NSet, Reps, ZPWeights, ZPSizes
 VARIABLE c
 SampleClassSeq == <<"ew", "weibull", "lognormal", "uniform", "zeros", "ties", "integers", "smalldelta">>
 WeightSeq == <<"none", "linear", "quadratic", "cubic", "array">>
@@ -20,7 +20,18 @@ Base == [wk : SetOfSeq(WeightSeq), fixed : BOOLEAN, method : SetOfSeq(MethodSeq)
          cls : SetOfSeq(SampleClassSeq), n : NSet, rep : Reps]
 LawCases == {[wk |-> x.wk, fixed |-> x.fixed, method |-> x.method, cls |-> x.cls, n |-> x.n, rep |-> x.rep,
               fd |-> FixedDeltaOf(x)] : x \in Base}
-Init == c \in LawCases
+(* pairs of consecutive fits with the SAME delta in force on samples with the same number of  *)
+(* non-zero observations and different numbers of zeros (za then zb), on one object or on two *)
+ZeroCounts == {0, 1, 12}
+ZeroPairBase == [wk : ZPWeights, method : SetOfSeq(MethodSeq), npos : ZPSizes, za : ZeroCounts, zb : ZeroCounts,
+                 objs : {"one", "two"}]
+ZeroPairCases ==
+    {[kind |-> "zeropair", wk |-> x.wk, method |-> x.method, npos |-> x.npos, za |-> x.za, zb |-> x.zb,
+      objs |-> x.objs,
+      fd |-> FixedDeltas[((Pos(WeightSeq, x.wk) + 3 * Pos(MethodSeq, x.method) + x.za + 2 * x.zb + x.npos
+                           + (IF x.objs = "one" THEN 0 ELSE 1)) % Len(FixedDeltas)) + 1]] :
+       x \in {y \in ZeroPairBase : y.za # y.zb}}
+Init == c \in LawCases \cup ZeroPairCases
 Next == UNCHANGED c
 Spec == Init /\ [][Next]_c
 Emit == PrintT(<<"BEH", ToJson(c)>>)
